@@ -225,7 +225,7 @@ pub fn run(cfg: &RunCfg, replay: Option<&str>) -> i32 {
     let r = pr.run_regressions();
     pr.push(r);
     let c = pr.cfg.clone();
-    let r = run_lane(&c, "C08", &Lane { name: "renders", cases: c.cases(300_000, 10_000_000), max_len: 300, sched_len: 0, workers: 0, f: &case_render });
+    let r = run_lane(&c, "C08", &Lane { name: "renders", cases: c.cases(600_000, 10_000_000), max_len: 300, sched_len: 0, workers: 0, f: &case_render });
     pr.push(r);
     pr.finish()
 }
